@@ -29,6 +29,7 @@ def forall(lo, hi, fn):  # noqa: F811 - no "is the range empty" solver query (se
 
 ATTR = Opt(Opaque("Attr"))
 RMAX = 2**30
+CVT = 15000  # reachability queries of the vacuity guards (see pyvc.engine.State.cover)
 QBT = 250  # feasibility checks at branches: the path conditions carry quantified facts; `unknown` keeps the branch (sound)
 
 
@@ -240,7 +241,7 @@ class rle_prepend_modify:
 # ------------------------------------------------------------------------------------------------ rle_join_modify
 
 
-@contract(UT + "rle_join_modify", property=("C02", "C17"), replayable=False, branch_timeout_ms=QBT, cover_timeout_ms=3000)
+@contract(UT + "rle_join_modify", property=("C02", "C17"), replayable=False, branch_timeout_ms=QBT, cover_timeout_ms=CVT)
 class rle_join_modify:
     """Precondition (from the call sites): `rle` and `rle2` are two distinct list objects."""
 
@@ -289,7 +290,7 @@ def _subseg_inv(v):
     yield "expansion", forall(0, P, lambda p: aeq(at(sub, p), at(r, s0 + p)))
 
 
-@contract(UT + "rle_subseg", property=("C02", "C17"), replayable=False, branch_timeout_ms=QBT, cover_timeout_ms=3000)
+@contract(UT + "rle_subseg", property=("C02", "C17"), replayable=False, branch_timeout_ms=QBT, cover_timeout_ms=CVT)
 class rle_subseg:
     """Zero-length runs in the input: a zero-length run met after the skipping is over is copied into the result
     as a zero-length run, one met while skipping is dropped; the expansion is the same either way, but the clause
@@ -338,7 +339,7 @@ def _product_inv(v):
     yield "no-zero-length-run", all_runs_at_least(res, 1)
 
 
-@contract(UT + "rle_product", property=("C02", "C17"), replayable=False, branch_timeout_ms=QBT, cover_timeout_ms=3000)
+@contract(UT + "rle_product", property=("C02", "C17"), replayable=False, branch_timeout_ms=QBT, cover_timeout_ms=4000)
 class rle_product:
     """Zero-length runs in the inputs: the loop `while r1 and r2` stops at the first zero-length run it loads,
     so the product is cut short there (rle_product([(a,0),(b,2)], [(c,2)]) == []); negative runs never terminate.
@@ -377,7 +378,7 @@ def _factor_inv(v):
         yield f"runs-at-least-{lo}", implies(all_runs_at_least(r, lo), both(all_runs_at_least(f1, lo), all_runs_at_least(f2, lo)))
 
 
-@contract(UT + "rle_factor", property=("C02", "C17"), replayable=False, branch_timeout_ms=QBT, cover_timeout_ms=3000)
+@contract(UT + "rle_factor", property=("C02", "C17"), replayable=False, branch_timeout_ms=QBT, cover_timeout_ms=CVT)
 class rle_factor:
     """Inverse of rle_product in the expansion view: with rle = rle_product(a, b) the two results expand to a and b
     over the product's length (compose `expansion-is-the-pair-of-expansions` with the two clauses here)."""
